@@ -293,11 +293,16 @@ bool Instance::eval(const size_t argc, char* const* argv) {
         return false;
     }
     CScript::const_iterator it = script.begin();
-    while (it != script.end()) {
-        if (!StepScript(*env, it, &script)) {
-            fprintf(stderr, "Error: %s\n", ScriptErrorString(*env->serror).c_str());
-            return false;
+    try {
+        while (it != script.end()) {
+            if (!StepScript(*env, it, &script)) {
+                fprintf(stderr, "Error: %s\n", ScriptErrorString(*env->serror).c_str());
+                return false;
+            }
         }
+    } catch (const std::exception& ex) {
+        fprintf(stderr, "Error: exception thrown: %s\n", ex.what());
+        return false;
     }
     return true;
 }
